@@ -1,0 +1,39 @@
+//! Verification hooks, only compiled with the `verif-hooks` feature.
+//!
+//! Nothing in here is part of the public API of the crate.
+use std::sync::atomic::{AtomicUsize, Ordering};
+
+/// Describes the views a `MatrixSlab::alloc` call is about to create inside
+/// the slab allocation. Every view is given as `(byte offset, byte length)`
+/// relative to the start of the slab.
+#[derive(Debug, Clone, Copy, PartialEq, Eq)]
+pub struct SlabReport {
+    /// size of the slab allocation in bytes
+    pub slab_size: usize,
+    /// length of the (windowed) haystack passed to `alloc`
+    pub haystack_len: usize,
+    /// length of the needle passed to `alloc`
+    pub needle_len: usize,
+    /// size of a haystack character in bytes
+    pub char_size: usize,
+    /// haystack, bonus, row offsets, current row and matrix cell views
+    pub views: [(usize, usize); 5],
+}
+
+static SLAB_HOOK: AtomicUsize = AtomicUsize::new(0);
+
+/// Installs (or removes) the function called by every successful `MatrixSlab::alloc`.
+pub fn set_slab_hook(hook: Option<fn(&SlabReport)>) {
+    SLAB_HOOK.store(hook.map_or(0, |hook| hook as usize), Ordering::SeqCst);
+}
+
+#[inline]
+pub(crate) fn report_slab(report: impl FnOnce() -> SlabReport) {
+    let hook = SLAB_HOOK.load(Ordering::Relaxed);
+    if hook != 0 {
+        // safety: only ever written by `set_slab_hook` from a valid function pointer
+        let hook: fn(&SlabReport) =
+            unsafe { std::mem::transmute::<usize, fn(&SlabReport)>(hook) };
+        hook(&report())
+    }
+}
